@@ -50,22 +50,25 @@ type Endpoint struct {
 	ISS  uint32
 	Data []byte
 	// knobs
-	advMSS      int // MSS option announced in the SYN
-	segMax      int // largest payload this endpoint puts into one segment
-	wnd         int // bytes in flight allowed
-	window      uint16
-	tsOpt       bool // offers the timestamp option
-	sackPerm    bool
-	wscale      int // -1 = not offered
-	closeMode   int
-	finWithData bool
-	ackEvery    int
-	delAck      int64
-	rto0        int64
-	smallCuts   bool // often cut segments below segMax
-	reseg       bool // retransmissions may use different boundaries
-	eagerFin    bool // wide only: FIN right after the last data without waiting for the ACKs
-	payStyle    int
+	advMSS       int // MSS option announced in the SYN
+	segMax       int // largest payload this endpoint puts into one segment
+	wnd          int // bytes in flight allowed
+	window       uint16
+	tsOpt        bool // offers the timestamp option
+	sackPerm     bool
+	wscale       int // -1 = not offered
+	closeMode    int
+	finWithData  bool
+	ackEvery     int
+	delAck       int64
+	rto0         int64
+	smallCuts    bool // often cut segments below segMax
+	reseg        bool // retransmissions may use different boundaries
+	eagerFin     bool // wide only: FIN right after the last data without waiting for the ACKs
+	jumbo        bool // segments of 30..64 KiB
+	forceHoldSeg int  // jumbo: index into segs of the data segment that is held back at the tap ...
+	forceHold    int  // ... until this many later packets of the direction have passed
+	payStyle     int
 	// application
 	appAvail   int   // bytes of Data written by the application so far
 	appChunks  []int // further writes: sizes
